@@ -51,7 +51,10 @@ func checkC05(c *Ctx) (int, error) {
 		streams := corpus(rng, kind, n, 70000)
 		for si, st := range streams {
 			for ki, ek := range exactKinds {
-				for _, ctor := range []string{"new", "reset"} {
+				for _, ctor := range []string{"new", "reset", "reset3"} {
+					if ctor == "reset3" && (si+ki)%2 == 1 {
+						continue
+					}
 					sfx := suffixes[(si+ki+id)%len(suffixes)]
 					s := st.s
 					if sfx > 0 {
@@ -67,6 +70,15 @@ func checkC05(c *Ctx) (int, error) {
 						fs.Mut = []Mutation{{Op: "append", N: 1 + id%90, Seed: int64(id)}}
 						first := RSeg{Stream: fs, Src: srcWith(RSource{Kind: []string{"bytesReader", "bufio", "bufio"}[id%3], BufSize: []int{4096, 64, 4096}[id%3]}, nil), Reads: []int{4096}, Multi: false}
 						cs.Segs = []RSeg{first, seg}
+					} else if ctor == "reset3" {
+						// a Reader that owns its buffering (plain source), then the caller's source, then a plain
+						// source again: the caller's source of the middle stream keeps what followed the stream
+						mk := func(k int) RSeg {
+							fs := encStream("std", kind, 6, DataSpec{Class: "text", Seed: int64(id + k), Len: 50 + 20*k}, nil)
+							fs.Mut = []Mutation{{Op: "append", N: 1 + (id+k)%90, Seed: int64(id + k)}}
+							return RSeg{Stream: fs, Src: plainSrc(chunkSchedules[(id+k)%len(chunkSchedules)]), Reads: []int{4096}, Multi: false}
+						}
+						cs.Segs = []RSeg{mk(0), seg, mk(1)}
 					} else {
 						cs.Segs = []RSeg{seg}
 					}
@@ -87,7 +99,7 @@ func checkC05(c *Ctx) (int, error) {
 			}
 		}
 	}
-	c.ev.Rule = fmt.Sprintf("%d streams per container kind (flate, gzip, zlib; 8 encoders) x source kinds {bufio 16,17,100,4095,4096,65536; bytes.Reader; bytes.Buffer; strings.Reader; custom ByteReader} x {NewReader, Reset after another stream} with a suffix of 0..5000 bytes, rotating chunk/read schedules and acceleration levels; after io.EOF the unread remainder of the caller's source must be exactly the suffix; gzip in Multistream(false) mode; distinct by (stream, source kind, constructor, suffix)", n)
+	c.ev.Rule = fmt.Sprintf("%d streams per container kind (flate, gzip, zlib; 8 encoders) x source kinds {bufio 16,17,100,4095,4096,65536; bytes.Reader; bytes.Buffer; strings.Reader; custom ByteReader} x {NewReader, Reset after another stream, Reset between two streams from plain (non-buffered) sources} with a suffix of 0..5000 bytes, rotating chunk/read schedules and acceleration levels; after io.EOF the unread remainder of the caller's source must be exactly the suffix; gzip in Multistream(false) mode; distinct by (stream, source kind, constructor, suffix)", n)
 	c.ev.Exhaustive = true
 	for _, cs := range spread(cases) {
 		c.ev.sample(map[string]interface{}{"case": cs.Tag})
